@@ -24,6 +24,7 @@ type Obligation struct {
 	PathDesc string
 	PathN    int
 	Vacuity  bool // a vacuity guard: expected to be SAT (i.e. not discharged)
+	Unbound  string // the clause could not be interpreted against the current code (reason); never sent to a solver
 	// results
 	Verdict string // unsat (discharged), sat (refuted), unknown
 	SolverNotes string
@@ -167,6 +168,7 @@ func (s *State) havocAllHeap(why string) {
 }
 
 type Exec struct {
+	unboundSeen map[string]bool
 	noAssume map[string]bool // obligations (func#kind:label) of other properties that failed: checked but not assumed afterwards
 	prog      *Program
 	fn        *ssa.Function
@@ -310,6 +312,26 @@ func (s *State) assumeAfter(kind, label string, g *T) {
 		return
 	}
 	s.Assume(g)
+}
+
+// unbound records a contract clause that no longer binds to the code (an identifier, loop or field it names is gone):
+// the obligation it stood for cannot be generated, so it is reported as not discharged under the clause's own label.
+func (s *State) unbound(kind, label string, props []string, pos token.Pos, text string, err error) {
+	if s.Dead {
+		return
+	}
+	x := s.X
+	fname := x.prog.shortName(x.fn)
+	base := fmt.Sprintf("%s#%s:%s", fname, kind, label)
+	if x.unboundSeen == nil {
+		x.unboundSeen = map[string]bool{}
+	}
+	if x.unboundSeen[base] {
+		return
+	}
+	x.unboundSeen[base] = true
+	x.obls = append(x.obls, &Obligation{Name: base, Kind: kind, Label: label, Func: fname, Props: props, Pos: x.prog.fset.Position(pos),
+		Goal: False, GoalText: text, PathDesc: strings.Join(s.Trace, " "), Unbound: err.Error()})
 }
 
 func (s *State) tr(format string, args ...interface{}) {
